@@ -454,4 +454,36 @@ theorem run_answer {d : Defects} {cd : Code} {own : Key} (s : State) (ops : List
       simp only [run, List.take_succ_cons, List.getElem?_cons_succ]
       exact ih _ j h
 
+/-! ### the key of a connection changes only through the handshake -/
+
+def Op.isAuth : Op → Bool
+  | .auth _ _ => true
+  | _ => false
+
+theorem step_key {d : Defects} {cd : Code} {own : Key} {s : State} {op : Op} (h : op.isAuth = false) :
+    (step d cd own s op).1.c.key = s.c.key := by
+  cases op with
+  | auth k r => simp [Op.isAuth] at h
+  | setReady b => rfl
+  | query q => simp only [step]; exact (@serve_allowed d cd s.w own s.c q).1
+  | advance t => rfl
+  | install room => simp only [step]; exact (roomEvent_spec d cd.event _ s.c room).1
+  | world f => rfl
+
+theorem run_key {d : Defects} {cd : Code} {own : Key} (ops : List Op) :
+    ∀ (s : State), (∀ op ∈ ops, op.isAuth = false) → (run d cd own s ops).1.c.key = s.c.key := by
+  induction ops with
+  | nil => intro s _; rfl
+  | cons op rest ih =>
+    intro s h
+    simp only [run]
+    rw [ih _ (fun o ho => h o (List.mem_cons_of_mem _ ho))]
+    exact step_key (h op List.mem_cons_self)
+
+theorem run_append {d : Defects} {cd : Code} {own : Key} (a b : List Op) :
+    ∀ (s : State), (run d cd own s (a ++ b)).1 = (run d cd own (run d cd own s a).1 b).1 := by
+  induction a with
+  | nil => intro s; rfl
+  | cons op rest ih => intro s; simp only [List.cons_append, run]; exact ih _
+
 end Discret.Serve
